@@ -611,3 +611,19 @@ def _auto_root2(env, mod, t, v, codec):
         if b.comps2 and flat_additions(b) and tagging.component_autotags(env, r.mod, b):
             return True
     return False
+
+
+@carve('ber-unknown-alternative-of-nested-untagged-extensible-choice', ['C07'])
+def _ber_nested_ext_choice(env, mod, t, v, codec):
+    """BER/DER: CHOICE with an alternative that is an untagged extensible CHOICE (unknown inner alternatives are rejected)."""
+    if codec not in ('ber', 'der'):
+        return False
+    for r in _constructed_nodes(env, mod, t):
+        if r.base.kind != 'CHOICE':
+            continue
+        auto = tagging.component_autotags(env, r.mod, r.base)
+        for c in all_comps(r.base):
+            ls, cr = tagging.layers(env, r.mod, c.t, auto.get(c.name))
+            if not ls and env.is_extensible(cr):
+                return True
+    return False
